@@ -421,11 +421,15 @@ def subterms(t):
         x = st.pop()
         if not isinstance(x, tuple):
             continue
-        if id(x) in seen:
+        if id(x) in seen or not x:
             continue
         seen.add(id(x))
-        yield x
-        for y in x[1:]:
+        if isinstance(x[0], str):
+            yield x
+            rest = x[1:]
+        else:
+            rest = x
+        for y in rest:
             if isinstance(y, tuple):
                 st.append(y)
             elif isinstance(y, list):
@@ -707,11 +711,11 @@ class Sym:
         if k in ('ref', 'rawptr'):
             return simplify(('ref', self.place_loc(n, rv['place'])))
         if k == 'bin':
-            return simplify(('bin', rv['op'], self.operand(n, rv['a']), self.operand(n, rv['b'])))
+            return simplify(('bin', rv['op'], self.operand(n, rv['a']), self.operand(n, rv['b']), rv.get('aty', '?')))
         if k == 'un':
-            return simplify(('un', rv['op'], self.operand(n, rv['a'])))
+            return simplify(('un', rv['op'], self.operand(n, rv['a']), rv.get('aty', '?')))
         if k == 'cast':
-            return simplify(('cast', rv['kind'], rv['ty'], self.operand(n, rv['op'])))
+            return simplify(('cast', rv['kind'], rv['ty'], self.operand(n, rv['op']), rv.get('from', '?')))
         if k == 'discr':
             return simplify(('discr', self.place_value(n, rv['place'])))
         if k == 'agg':
@@ -853,6 +857,34 @@ def simplify(t, call_d=None):
                 loc = base[1]
                 return ('ref', ('loc', loc[1], loc[2] + (('idx', args[1]),)))
             return ('ref', ('loc', ('deref', base, '?'), (('idx', args[1]),)))
+        if tr == ('core::ops::Try', 'branch') and args:
+            st = d.get('self_ty', '')
+            kind = 'option' if st.startswith('core::option::Option') else ('result' if st.startswith('core::result::Result') else None)
+            if kind:
+                x = args[0]
+                if x[0] == 'agg':
+                    if x[1].endswith('::Some') or x[1].endswith('::Ok'):
+                        return ('agg', 'core::ops::ControlFlow::Continue', (x[2][0],), ('0',))
+                    if x[1].endswith('::None'):
+                        return ('agg', 'core::ops::ControlFlow::Break', (('agg', 'core::option::Option::None', (), ()),), ('0',))
+                    if x[1].endswith('::Err'):
+                        return ('agg', 'core::ops::ControlFlow::Break', (x,), ('0',))
+                return ('trybranch', kind, x)
+        if tr == ('core::ops::FromResidual', 'from_residual') and args:
+            r = args[0]
+            if r[0] == 'residual':
+                if r[1] == 'option':
+                    return ('agg', 'core::option::Option::None', (), ())
+                return ('agg', 'core::result::Result::Err', (('conv', '?', simplify(('field', ('downcast', r[2], 'Err'), '0'))),), ('0',))
+            if r[0] == 'agg' and r[1].endswith('::None'):
+                return ('agg', 'core::option::Option::None', (), ())
+            if r[0] == 'agg' and r[1].endswith('::Err'):
+                return ('agg', 'core::result::Result::Err', (('conv', '?', r[2][0]),), ('0',))
+        if fn in ('core::option::Option::<T>::unwrap', 'core::option::Option::<T>::expect',
+                  'core::option::Option::<T>::unwrap_unchecked') and args:
+            return simplify(('field', simplify(('downcast', args[0], 'Some')), '0'))
+        if fn in ('core::result::Result::<T, E>::unwrap', 'core::result::Result::<T, E>::expect') and args:
+            return simplify(('field', simplify(('downcast', args[0], 'Ok')), '0'))
         if tr in CONV_TRAIT_METHODS and args:
             return ('conv', d.get('substs', ['?'])[0] if tr[1] == 'from' else (d.get('substs', ['?', '?'])[1] if len(d.get('substs', [])) > 1 else '?'), args[0])
         return t
@@ -866,15 +898,30 @@ def simplify(t, call_d=None):
             return v[2][int(t[2])]
         if v[0] == 'bin' and v[1].endswith('WithOverflow'):
             if t[2] == '0':
-                return ('bin', v[1][:-len('WithOverflow')], v[2], v[3])
+                return ('bin', v[1][:-len('WithOverflow')], v[2], v[3]) + tuple(v[4:])
             return ('ovf', v)
         if v[0] == 'phi':
             return ('phi', tuple(_dedup([simplify(('field', x, t[2])) for x in v[1]])))
+        if v[0] == 'downcast' and v[1][0] == 'trybranch' and t[2] == '0':
+            tb = v[1]
+            if v[2] == 'Continue':
+                return simplify(('field', simplify(('downcast', tb[2], 'Some' if tb[1] == 'option' else 'Ok')), '0'))
+            if v[2] == 'Break':
+                return ('residual', tb[1], tb[2])
         return t
     if k == 'downcast':
         v = t[1]
         if v[0] == 'agg' and '::' in v[1]:
             return v
+        return t
+    if k == 'discr':
+        v = t[1]
+        if v[0] == 'agg' and '::' in v[1]:
+            nm = v[1].rsplit('::', 1)[1]
+            if nm in ('None', 'Ok', 'Continue'):
+                return ('const', 0, 'isize')
+            if nm in ('Some', 'Err', 'Break'):
+                return ('const', 1, 'isize')
         return t
     return t
 
